@@ -812,7 +812,7 @@ func msgClass(m string) string {
 func oracleC01(o *Outcome, d *Disk) (class, sig, msg string) {
 	switch {
 	case o.Deadlock != "":
-		return "deadlock", "deadlock", "the build started goroutines of its own and none of them (nor the build itself) can make progress: it never returns\n  " + o.Deadlock
+		return "deadlock", "deadlock", "no task of the build (the build itself and the goroutines it may have started) can make progress - each waits for a lock, a Once, a WaitGroup or a channel that nobody will release: it never returns\n  " + o.Deadlock
 	case o.StepLim:
 		return "step-limit", "more than 5000 file accesses", fmt.Sprintf("the build performed more than %d file-system accesses: it does not terminate in steps proportional to the input", maxAccesses)
 	case o.Panic != "":
@@ -1252,6 +1252,9 @@ func inlineInstances(root *Instance, all []*Instance) (string, []inlineSeg) {
 				ls--
 			}
 			le := il.off
+			if il.end > le {
+				le = il.end
+			}
 			for le < len(in.Data) && in.Data[le] != '\n' && in.Data[le] != '\r' {
 				le++
 			}
